@@ -35,16 +35,10 @@ vpv_cell!(#[kani::unwind(6)] c20_array2, "C20/value-roundtrip/Array[Float, Int]"
     let ok = match &r { V::Array(a) => a.len() == 2 && bits_eq(&a[0], &V::Float(f)) && bits_eq(&a[1], &V::Int(i)), _ => false };
     std::mem::forget(v); std::mem::forget(r);
     ok });
-vpv_cell!(#[kani::unwind(6)] c20_array_nested, "C20/value-roundtrip/Array[Array[Float], Null] (depth 2)", (f: f64), {
-    let v = V::array(vec![V::array(vec![V::Float(f)]), V::Null]);
-    let r = roundtrip(&v);
-    let ok = match &r { V::Array(a) => a.len() == 2 && matches!(&a[1], V::Null) && match &a[0] { V::Array(b) => b.len() == 1 && bits_eq(&b[0], &V::Float(f)), _ => false }, _ => false };
-    std::mem::forget(v); std::mem::forget(r);
-    ok });
 vpv_cell!(#[kani::unwind(6)] c20_array_empty, "C20/value-roundtrip/Array[]", (), {
     let v = V::array(vec![]);
     let r = roundtrip(&v);
     let ok = matches!(&r, V::Array(a) if a.is_empty());
     std::mem::forget(v); std::mem::forget(r);
     ok });
-vpv_replay_table!(c20_int, c20_float, c20_bool, c20_null, c20_timestamp, c20_duration, c20_str, c20_array2, c20_array_nested, c20_array_empty);
+vpv_replay_table!(c20_int, c20_float, c20_bool, c20_null, c20_timestamp, c20_duration, c20_str, c20_array2, c20_array_empty);
